@@ -782,5 +782,6 @@ fn main() {
         rule: "closures (map, map_e, filter, filter_e, filter_map(_e), fold, for_each(_e), into_iter x2, collect, same-shape zip): exhaustive over every shape rank<=4 len<=3 (+ zero-length) x 4 element patterns (tags, offset tags, repeated/negative, constant) x 3 (quick) / 8 (thorough) counter-stamping closures, + seeded random rank<=5 len<=6; \
 unary math: 43 ops x {f64,f32,i32} x shapes (rank<=4 len<=2 + selected, quick; all rank<=4 len<=3, thorough) x value classes dom/edge/spec(NaN,+-inf)/mix, out[p] == native kernel of in[src[p]] bit-exact; \
 frexp/ldexp/ldexp(frexp): bit patterns of all powers of two 2^-1074..2^1023 (every 37th in quick) with both neighbours and signs, extremes, subnormals, random patterns, f32-representable values, +-0, NaN, +-inf under a 5 s watchdog. \
+ROBUSTNESS STREAMS: closures on every big_shapes() entry (axis lengths 7..17, > 256 / 1024 / 4096 elements) and zero_shapes() entry x the 9 closure ops x 1-3 stamping closures whose answer depends on the passed index, on the number of earlier calls and on the element, + random long shapes; every closure / into_iter case also on the f64 (tag 0 = -0.0, bit-wise), u8 and String images of the array (same transcript required); unary: 48 ops (the 43 + reciprocal, negative, positive, bitwise_not, invert) x i8,i16,i32,i64,u8,u16,u32,u64,f32,f64 (where defined) x classes dom/lim (limits of the type, beyond 2^53 / 2^63, subnormals, -0.0), native kernel with the harness own casts, on small, big and zero-length shapes; EVERY unary / frexp / ldexp / roundtrip case on three receivers - a.op(), Ok(a).op() (bit-identical) and Err(_).op() (must stay an error); frexp/ldexp/roundtrip on arrays of 81..1030 (thorough 4100) elements, all subnormal exponents, the top binade, zero-length shapes. \
 distinct = distinct case lines; non-trivial = array with >= 2 elements (closure/unary) or containing a finite non-zero value (float ops)" });
 }
